@@ -17,6 +17,8 @@ pub fn instances(tier: &str) -> Vec<String> {
                 v.push(format!("ok:solver={},n=2,pat={},iters=0,rhs={}", s, pat, rhs));
                 v.push(format!("ok:solver={},n=2,pat={},iters=1,rhs={}", s, pat, rhs));
             }
+            // two iterations exercise the beta / direction-update recurrences (BiCGSTAB's second step is thorough-only: slow)
+            if tier != "thorough" && s != "bicgstab" && rhs == "nz" { v.push(format!("ok:solver={},n=2,pat=full,iters=2,rhs={}", s, rhs)); }
             v.push(format!("ok:solver={},n=1,pat=full,iters=1,rhs={}", s, rhs));
             v.push(format!("ok:solver={},n=1,pat=full,iters=2,rhs={}", s, rhs));
             if tier == "thorough" {
